@@ -1,1 +1,15 @@
 import SteelVerif.C13.Props
+open SteelVerif.C13
+#print axioms match_exact
+#print axioms match_complete
+#print axioms match_literal
+#print axioms expand_fuel_mono
+#print axioms expandM_fuel_mono
+#print axioms not_hygiene
+#print axioms not_hygiene_a
+#print axioms not_hygiene_b
+#print axioms not_hygiene_c
+#print axioms not_hygiene_d
+#print axioms match_exact_needs_guard_e
+#print axioms collect_panics_e
+#print axioms match_exact_needs_clean
